@@ -687,5 +687,340 @@ theorem scriptGo_end (st : SS) (t : Tokenizer) (ok : Ok t) (hs : t.rawTag = html
     simp only [htmlScriptEndTagLen]
     omega
 
+/-! ### every token ends at EOF, right after a `>`, or right before a `<` -/
+
+def End (t : Tokenizer) : Prop := t.err = true ∨ EndsGt t ∨ AtLt t
+
+theorem EndG.toEnd {t : Tokenizer} (h : EndG t) : End t := by
+  rcases h with h | h
+  · exact Or.inl h
+  · exact Or.inr (Or.inl h)
+
+theorem EndL.toEnd {t : Tokenizer} (h : EndL t) : End t := by
+  rcases h with h | h
+  · exact Or.inl h
+  · exact Or.inr (Or.inr h)
+
+theorem End.congr {t t' : Tokenizer} (h : End t) (e1 : t'.err = t.err) (e2 : t'.rawE = t.rawE) (e3 : t'.buf = t.buf) :
+    End t' := by
+  unfold End EndsGt AtLt at *
+  rw [e1, e2, e3]; exact h
+
+theorem finishText_end (t : Tokenizer) (h : t.err = true) : End (finishText t) := Or.inl (by simpa using h)
+
+theorem dispatchTag_end (t : Tokenizer) (b : Nat) (ok : Ok t) (h2 : Lt2 t) : End (dispatchTag t b) := by
+  unfold dispatchTag
+  simp only [htmlTagOpenLen]
+  have hn : ¬ t.rawE < 2 := by have := h2.1; omega
+  rw [if_neg hn]
+  split
+  · exact Or.inr (Or.inr h2.2)
+  · split
+    · exact ((readStartTag_end t ok (by have := h2.1; omega)).toEnd).congr rfl rfl rfl
+    · split
+      · split
+        · rename_i he; exact finishText_end _ he
+        · rename_i he
+          split
+          · rename_i hg
+            exact ((endG_of_gt he hg).toEnd).congr rfl rfl rfl
+          · split
+            · have := (readTag_end t.readByte.1 false (readByte_adv ok).ok (readByte_pos he)).toEnd
+              split <;> exact this.congr rfl rfl rfl
+            · exact ((readUntilCloseAngle_end _).toEnd).congr rfl rfl rfl
+      · split
+        · exact ((readMarkupDeclaration_end t).toEnd).congr rfl rfl rfl
+        · exact ((readUntilCloseAngle_end _).toEnd).congr rfl rfl rfl
+
+theorem mainLoop_end (t : Tokenizer) (ok : Ok t) : End (mainLoop t) := by
+  fun_induction mainLoop t
+  all_goals (try simp +zetaDelta only at *)
+  case case1 => exact finishText_end _ (by assumption)
+  case case2 ih => exact ih (readByte_adv ok).ok
+  case case3 => exact finishText_end _ (by assumption)
+  case case4 t _ herr1 _ _ herr2 _ ih =>
+    have a1 := readByte_adv ok
+    exact ih (a1.trans (read_unread_adv a1.ok herr2)).ok
+  case case5 t _ herr1 hlt _ herr2 _ =>
+    have a1 := readByte_adv ok
+    have a2 := readByte_adv a1.ok
+    have hl : (t.readByte.2 == 60) = true := by simpa using hlt
+    exact dispatchTag_end _ _ a2.ok (lt2_of_read herr2 (lt1_of_read herr1 hl))
+
+theorem readRawOrCdata_end (t : Tokenizer) (ok : Ok t) (htag : TagOk t.rawTag) : End (readRawOrCdata t) := by
+  unfold readRawOrCdata readScript
+  split
+  · rename_i hs
+    have hs' : t.rawTag = htmlScript := by simpa using hs
+    exact ((scriptGo_end .data t ok hs' (fun hn => absurd hn (by decide)) (fun hn => absurd hn (by decide))).toEnd).congr
+      rfl rfl rfl
+  · exact ((rawTextGo_end t ok htag).toEnd).congr rfl rfl rfl
+
+theorem nextGo_end (t : Tokenizer) (ok : Ok t) (htag : TagOk t.rawTag) : End (nextGo t) := by
+  unfold nextGo
+  simp only
+  split
+  · rename_i he; exact Or.inl he
+  · have cont : ∀ t1 : Tokenizer, Ok t1 → End (mainLoop { t1 with textIsRaw := false, convertNull := false }) :=
+      fun t1 ok1 => mainLoop_end _ ⟨ok1.le, ok1.panic, ok1.hang, ok1.utf8⟩
+    split
+    · have key : ∀ t1 : Tokenizer, Ok t1 → End t1 →
+          End (if t1.dataE > t1.dataS then { t1 with token := .text, convertNull := true }
+            else mainLoop { t1 with textIsRaw := false, convertNull := false }) := by
+        intro t1 ok1 e1
+        split
+        · exact e1.congr rfl rfl rfl
+        · exact cont t1 ok1
+      split
+      · have a := readToEnd_adv t ok
+        exact key _ ⟨a.ok.le, a.ok.panic, a.ok.hang, a.ok.utf8⟩ (Or.inl (readToEnd_err t))
+      · exact key _ (readRawOrCdata_spec t ok htag).1.ok (readRawOrCdata_end t ok htag)
+    · exact cont t ok
+
+theorem next_end (t : Tokenizer) (inv : Inv t) : End (next t) :=
+  nextGo_end _ ⟨inv.ok.le, inv.ok.panic, inv.ok.hang, inv.ok.utf8⟩ inv.tag
+
+/-! ### tag tokens: `<` first, `>` last, the name is delimited by ASCII bytes -/
+
+/-- the byte at position `i` exists and is ASCII -/
+def AsciiAt (t : Tokenizer) (i : Nat) : Prop := ∃ c, t.buf[i]? = some c ∧ c < 128
+
+theorem isWs_lt {c : Nat} (h : isWs c = true) : c < 128 := by
+  simp only [isWs, Bool.or_eq_true, beq_iff_eq] at h
+  omega
+
+theorem tagNameGo_dataE (t : Tokenizer) : (tagNameGo t).err = true ∨ AsciiAt (tagNameGo t) (tagNameGo t).dataE := by
+  fun_induction tagNameGo t
+  all_goals (try simp +zetaDelta only at *)
+  case case1 => exact Or.inl (by assumption)
+  case case2 t _ herr hws =>
+    have l := lastRead herr
+    have s := setDataEndBack_spec t.readByte.1 1 l.1
+    refine Or.inr ⟨t.readByte.2, ?_, isWs_lt hws⟩
+    rw [s.1, setDataEndBack_buf]; exact l.2
+  case case3 t _ herr _ hsg _ =>
+    have l := lastRead herr
+    have u := lt_unread herr
+    have e := readByte_succ herr
+    refine Or.inr ⟨t.readByte.2, ?_, by simp only [Bool.or_eq_true, beq_iff_eq] at hsg; omega⟩
+    show (t.readByte.1.unread 1).buf[(t.readByte.1.unread 1).rawE]? = some t.readByte.2
+    rw [u.1, u.2]
+    have := l.2
+    rw [e, readByte_buf] at this
+    simpa using this
+  case case4 ih => exact ih
+
+theorem readTag_nameEnd (t : Tokenizer) (save : Bool) (ok : Ok t) (h1 : 1 ≤ t.rawE) :
+    (readTag t save).err = true ∨ AsciiAt (readTag t save) (readTag t save).dataE := by
+  have h0 : Adv t { t with attrs := #[], nAttrRet := 0 } := (Adv.refl ok).congr (by simp [core])
+  have a1 := readTagName_adv _ h0.ok h1
+  unfold readTag
+  simp only
+  unfold readTagName at a1 ⊢
+  have hne : ¬ t.rawE = 0 := by omega
+  simp only [hne, if_false] at a1 ⊢
+  have h00 : Adv t { t with attrs := #[], nAttrRet := 0, dataS := t.rawE - 1 } := (Adv.refl ok).congr (by simp [core])
+  have d := tagNameGo_data { t with attrs := #[], nAttrRet := 0, dataS := t.rawE - 1 } h00.ok
+  have n := tagNameGo_dataE { t with attrs := #[], nAttrRet := 0, dataS := t.rawE - 1 }
+  simp only at d
+  generalize ({ t with attrs := #[], nAttrRet := 0, dataS := t.rawE - 1 } : Tokenizer).tagNameGo = t1 at *
+  have a2 := skipWhiteSpace_adv _ a1.ok
+  have f2 := skipWhiteSpace_frame t1
+  have sk := skipWhiteSpace_err t1
+  generalize t1.skipWhiteSpace = t2 at *
+  have hao : AttrsOk t2 := by
+    intro a hmem; rw [f2.2.2.1, d.2.2.2.1] at hmem; simp at hmem
+  split
+  · rename_i he; exact Or.inl he
+  · have s := tagAttrsGo_spec t2 save a2.ok hao
+    have ab := (tagAttrsGo_adv t2 save a2.ok).buf
+    rcases n with n | ⟨c, hc, hlt⟩
+    · exact Or.inl (tagAttrsGo_err _ _ (sk n))
+    · refine Or.inr ⟨c, ?_, hlt⟩
+      rw [s.2.2.1, ab, f2.2.1, a2.buf]; exact hc
+
+theorem startTagKind_cases (t : Tokenizer) :
+    startTagKind t = .selfClosing ∨ startTagKind t = .startTag ∨ startTagKind t = .error := by
+  unfold startTagKind
+  (repeat' split) <;> simp
+
+/-- facts about the result of `read_start_tag` when it is a tag token -/
+theorem readStartTag_tag (t : Tokenizer) (ok : Ok t) (h2 : 2 ≤ t.rawE) (htag : TagOk t.rawTag)
+    (hk : isTagLike (readStartTag t).2 = true) :
+    (readStartTag t).1.err = false ∧ AsciiAt (readStartTag t).1 (readStartTag t).1.dataE := by
+  have n := readTag_nameEnd t true ok (by omega)
+  have f := startTagRaw_fields (readTag t true)
+  unfold readStartTag at hk ⊢
+  simp only at hk ⊢
+  by_cases he : (readTag t true).err = true
+  · rw [if_pos he] at hk; simp [isTagLike] at hk
+  · rw [if_neg he] at hk ⊢
+    have hf : (readTag t true).err = false := by simpa using he
+    have key : (startTagRaw (readTag t true)).err = false ∧
+        AsciiAt (startTagRaw (readTag t true)) (startTagRaw (readTag t true)).dataE := by
+      refine ⟨by rw [f.1, hf], ?_⟩
+      rcases n with n | ⟨c, hc, hlt⟩
+      · rw [hf] at n; cases n
+      · exact ⟨c, by rw [f.2.2.2.2.2, f.2.2.1]; exact hc, hlt⟩
+    split
+    · rename_i h; rw [if_pos h] at hk; simp [isTagLike] at hk
+    · split
+      · rename_i h1 h; rw [if_neg h1, if_pos h] at hk; simp [isTagLike] at hk
+      · exact key
+
+/-- what holds of a start / end / self-closing tag token -/
+structure TagFacts (t : Tokenizer) : Prop where
+  noErr : t.err = false
+  first : t.buf[t.rawS]? = some 60
+  last : EndsGt t
+  nameS : 1 ≤ t.dataS ∧ AsciiAt t (t.dataS - 1)
+  nameE : AsciiAt t t.dataE
+
+theorem TagFacts.congr {t t' : Tokenizer} (h : TagFacts t) (e0 : t'.err = t.err) (e1 : t'.buf = t.buf)
+    (e2 : t'.rawS = t.rawS) (e3 : t'.rawE = t.rawE) (e4 : t'.dataS = t.dataS) (e5 : t'.dataE = t.dataE) :
+    TagFacts t' := by
+  obtain ⟨h1, h2, h3, h4, h5⟩ := h
+  refine ⟨by rw [e0]; exact h1, by rw [e1, e2]; exact h2, ?_, ?_, ?_⟩
+  · unfold EndsGt at *; rw [e1, e3]; exact h3
+  · unfold AsciiAt at *; rw [e1, e4]; exact h4
+  · unfold AsciiAt at *; rw [e1, e5]; exact h5
+
+theorem endsGt_of {t : Tokenizer} (h : EndG t) (he : t.err = false) : EndsGt t := by
+  rcases h with h | h
+  · rw [he] at h; cases h
+  · exact h
+
+theorem dispatchTag_tag (t : Tokenizer) (b : Nat) (ok : Ok t) (h2 : Lt2 t) (hr : t.rawS + 2 ≤ t.rawE)
+    (htag : TagOk t.rawTag) (hb : t.buf[t.rawE - 1]? = some b)
+    (hk : isTagLike (dispatchTag t b).token = true) : TagFacts (dispatchTag t b) := by
+  unfold dispatchTag at hk ⊢
+  simp only [htmlTagOpenLen] at hk ⊢
+  have hn : ¬ t.rawE < 2 := by omega
+  rw [if_neg hn] at hk ⊢
+  by_cases h1 : t.rawS < t.rawE - 2
+  · rw [if_pos h1] at hk; simp [isTagLike] at hk
+  · rw [if_neg h1] at hk ⊢
+    have hrs : t.rawS = t.rawE - 2 := by omega
+    by_cases ha : isAlpha b = true
+    · rw [if_pos ha] at hk ⊢
+      simp only at hk
+      have sp := readStartTag_spec t ok (by omega) htag
+      have tg := readStartTag_tag t ok (by omega) htag hk
+      have en := readStartTag_end t ok (by omega)
+      obtain ⟨s1, s2, s3, s4, s5, s6, s7⟩ := sp
+      generalize readStartTag t = r at *
+      have hbuf : r.1.buf = t.buf := s1.buf
+      have hrs' : r.1.rawS = t.rawS := s1.rawS
+      refine TagFacts.congr (t := r.1) ⟨tg.1, ?_, endsGt_of en tg.1, ⟨by omega, ?_⟩, tg.2⟩ rfl rfl rfl rfl rfl rfl
+      · rw [hbuf, hrs', hrs]; exact h2.2
+      · refine ⟨60, ?_, by decide⟩
+        rw [hbuf, s3, show t.rawE - 1 - 1 = t.rawE - 2 by omega]; exact h2.2
+    · rw [if_neg ha] at hk ⊢
+      by_cases hs : (b == 47) = true
+      · rw [if_pos hs] at hk ⊢
+        have hb47 : b = 47 := by simpa using hs
+        by_cases h3 : t.readByte.1.err = true
+        · rw [if_pos h3] at hk
+          exfalso
+          unfold finishText at hk
+          split at hk <;> simp [isTagLike] at hk
+        · rw [if_neg h3] at hk ⊢
+          by_cases h4 : (t.readByte.2 == 62) = true
+          · rw [if_pos h4] at hk; simp [isTagLike] at hk
+          · rw [if_neg h4] at hk ⊢
+            by_cases h5 : isAlpha t.readByte.2 = true
+            · rw [if_pos h5] at hk ⊢
+              have a3 := readByte_adv ok
+              have e3 := readByte_succ h3
+              have hp := readByte_pos h3
+              have a4 := readTag_adv t.readByte.1 false a3.ok hp
+              have s4 := readTag_spec t.readByte.1 false a3.ok hp
+              have n4 := readTag_nameEnd t.readByte.1 false a3.ok hp
+              have en := readTag_end t.readByte.1 false a3.ok hp
+              generalize t.readByte.1.readTag false = t4 at *
+              by_cases h6 : t4.err = true
+              · rw [if_pos h6] at hk; simp [isTagLike] at hk
+              · rw [if_neg h6] at hk ⊢
+                have hf : t4.err = false := by simpa using h6
+                have hbuf : t4.buf = t.buf := (a3.trans a4).buf
+                have hrs' : t4.rawS = t.rawS := (a3.trans a4).rawS
+                refine TagFacts.congr (t := t4) ⟨hf, ?_, endsGt_of en hf, ⟨by omega, ?_⟩, ?_⟩ rfl rfl rfl rfl rfl rfl
+                · rw [hbuf, hrs', hrs]; exact h2.2
+                · refine ⟨b, ?_, by omega⟩
+                  rw [hbuf, s4.1, e3, show t.rawE + 1 - 1 - 1 = t.rawE - 1 by omega]; exact hb
+                · rcases n4 with n | n
+                  · rw [hf] at n; cases n
+                  · exact n
+            · rw [if_neg h5] at hk; simp [isTagLike] at hk
+      · rw [if_neg hs] at hk
+        by_cases hbang : (b == 33) = true
+        · rw [if_pos hbang] at hk
+          simp only at hk
+          rw [(markup_kind t).1] at hk; cases hk
+        · rw [if_neg hbang] at hk; simp [isTagLike] at hk
+
+theorem mainLoop_tag (t : Tokenizer) (ok : Ok t) (hr : t.rawS ≤ t.rawE) (htag : TagOk t.rawTag)
+    (hk : isTagLike (mainLoop t).token = true) : TagFacts (mainLoop t) := by
+  fun_induction mainLoop t
+  all_goals (try simp +zetaDelta only at *)
+  case case1 => exfalso; unfold finishText at hk; split at hk <;> simp [isTagLike] at hk
+  case case2 ih =>
+    have a1 := readByte_adv ok
+    exact ih a1.ok (by rw [a1.rawS]; have := a1.mono; omega) (by rw [a1.rawTag]; exact htag) hk
+  case case3 => exfalso; unfold finishText at hk; split at hk <;> simp [isTagLike] at hk
+  case case4 t _ herr1 _ _ herr2 _ ih =>
+    have a1 := readByte_adv ok
+    have a2 := a1.trans (read_unread_adv a1.ok herr2)
+    exact ih a2.ok (by rw [a2.rawS]; have := a2.mono; omega) (by rw [a2.rawTag]; exact htag) hk
+  case case5 t _ herr1 hlt _ herr2 _ =>
+    have a1 := readByte_adv ok
+    have a2 := readByte_adv a1.ok
+    have a12 := a1.trans a2
+    have hl : (t.readByte.2 == 60) = true := by simpa using hlt
+    have e1 := readByte_succ herr1
+    have e2 := readByte_succ herr2
+    exact dispatchTag_tag _ _ a2.ok (lt2_of_read herr2 (lt1_of_read herr1 hl)) (by rw [a12.rawS]; omega)
+      (by rw [a12.rawTag]; exact htag) (lastRead herr2).2 hk
+
+theorem nextGo_tag (t : Tokenizer) (ok : Ok t) (hr : t.rawS ≤ t.rawE) (htag : TagOk t.rawTag)
+    (hk : isTagLike (nextGo t).token = true) : TagFacts (nextGo t) := by
+  unfold nextGo at hk ⊢
+  simp only at hk ⊢
+  by_cases h0 : t.err = true
+  · rw [if_pos h0] at hk; simp [isTagLike] at hk
+  · rw [if_neg h0] at hk ⊢
+    have cont : ∀ t1 : Tokenizer, Ok t1 → t1.rawS ≤ t1.rawE → TagOk t1.rawTag →
+        isTagLike (mainLoop { t1 with textIsRaw := false, convertNull := false }).token = true →
+        TagFacts (mainLoop { t1 with textIsRaw := false, convertNull := false }) :=
+      fun t1 ok1 hr1 tg1 hk1 => mainLoop_tag _ ⟨ok1.le, ok1.panic, ok1.hang, ok1.utf8⟩ hr1 tg1 hk1
+    by_cases h1 : (t.rawTag != []) = true
+    · rw [if_pos h1] at hk ⊢
+      have key : ∀ t1 : Tokenizer, Ok t1 → t1.rawS ≤ t1.rawE → TagOk t1.rawTag →
+          isTagLike (if t1.dataE > t1.dataS then { t1 with token := .text, convertNull := true }
+            else mainLoop { t1 with textIsRaw := false, convertNull := false }).token = true →
+          TagFacts (if t1.dataE > t1.dataS then { t1 with token := .text, convertNull := true }
+            else mainLoop { t1 with textIsRaw := false, convertNull := false }) := by
+        intro t1 ok1 hr1 tg1 hk1
+        by_cases h : t1.dataE > t1.dataS
+        · rw [if_pos h] at hk1; simp [isTagLike] at hk1
+        · rw [if_neg h] at hk1 ⊢
+          exact cont t1 ok1 hr1 tg1 hk1
+      by_cases h2 : (t.rawTag == htmlPlaintext) = true
+      · rw [if_pos h2] at hk ⊢
+        have a := readToEnd_adv t ok
+        exact key _ ⟨a.ok.le, a.ok.panic, a.ok.hang, a.ok.utf8⟩ (by
+          show t.readToEnd.rawS ≤ t.readToEnd.rawE; rw [a.rawS]; have := a.mono; omega) (by
+          show TagOk t.readToEnd.rawTag; rw [a.rawTag]; exact htag) hk
+      · rw [if_neg h2] at hk ⊢
+        have s := readRawOrCdata_spec t ok htag
+        exact key _ s.1.ok (by rw [s.1.rawS]; have := s.1.mono; omega) (by rw [s.2.1]; exact TagOk_nil) hk
+    · rw [if_neg h1] at hk ⊢
+      exact cont t ok hr htag hk
+
+/-- **tag tokens**: a start / end / self-closing tag token did not hit EOF, its raw span starts with `<` and ends with
+`>`, and its name is preceded and followed by ASCII bytes -/
+theorem next_tag (t : Tokenizer) (inv : Inv t) (hk : isTagLike (next t).token = true) : TagFacts (next t) :=
+  nextGo_tag _ ⟨inv.ok.le, inv.ok.panic, inv.ok.hang, inv.ok.utf8⟩ (Nat.le_refl _) inv.tag hk
+
 end Tokenizer
 end Rio.Html
